@@ -114,7 +114,7 @@ func HarnessC04ConnectStreamCut() {
 // HarnessC04GRPCStreamCut: gRPC (HTTP trailers): success requires the
 // grpc-status trailer and a body that ended on a frame boundary.
 //
-//verif:harness property=C04
+//verif:harness property=C04 stubs=json,wire
 func HarnessC04GRPCStreamCut() {
 	msgs := c04Messages()
 	body, frameEnds := c04Body(1, msgs)
@@ -133,19 +133,16 @@ func HarnessC04GRPCStreamCut() {
 		trailer[grpcHeaderMessage] = nil
 	}
 	fr := &faultReader{data: body, cut: cut, kind: kind}
-	d := c04Duplex(fr, trailer)
-	pool := newBufferPool()
-	cc := &grpcClientConn{
-		duplexCall: d, bufferPool: pool, protobuf: &byteCodec{},
-		unmarshaler:     grpcUnmarshaler{envelopeReader: envelopeReader{reader: d, codec: &byteCodec{}, bufferPool: pool}},
-		responseHeader:  make(http.Header),
-		responseTrailer: make(http.Header),
-		readTrailers: func(_ *grpcUnmarshaler, call *duplexHTTPCall) http.Header {
-			_ = discard(call)
-			return call.ResponseTrailer()
-		},
+	// through the public API (the client's own wiring of where trailers come
+	// from is part of what is checked)
+	resp := &http.Response{StatusCode: 200, Status: "200 OK", ProtoMajor: 2, Header: http.Header{"Content-Type": {"application/grpc+proto"}}, Trailer: trailer, Body: fr}
+	client := NewClient[[]byte, []byte](&cannedTransport{resp: resp}, stackURL, stackClientOptions(1)...)
+	in := []byte{1}
+	stream, serr := client.CallServerStream(context.Background(), NewRequest(&in))
+	check(serr == nil, "starting the stream succeeds")
+	if serr != nil {
+		return
 	}
-	stream := &ServerStreamForClient[[]byte]{conn: wrapClientConnWithCodedErrors(cc)}
 	var got [][]byte
 	calls := 0
 	for stream.Receive() {
@@ -337,4 +334,57 @@ func HarnessC04TransportFailure() {
 //verif:harness property=C04 stubs=json,wire shard=proto:3 race=on
 func HarnessC04NothingHangs() {
 	c14Run(nondetChoice("proto", 3), false)
+}
+
+// HarnessC04GRPCWebStreamCut: gRPC-Web (full stack, real client): the
+// terminator is the trailer frame in the body.  The body is cut at a symbolic offset (clean EOF, unexpected
+// EOF or transport error); whatever the HTTP-level trailers say - absent, or
+// a Grpc-Status: 0 a proxy added - the call succeeds only if the 0x80 frame
+// arrived completely.
+//
+//verif:harness property=C04 stubs=json,wire
+func HarnessC04GRPCWebStreamCut() {
+	msgs := c04Messages()
+	body, frameEnds := c04Body(1, msgs)
+	dataLen := len(body)
+	body = append(body, refFrame(0x80, []byte("grpc-status: 0\r\n"))...)
+	cut := nondetInt("cut")
+	assume(cut >= 0 && cut <= len(body))
+	// offsets inside the trailer frame all behave alike: keep its first bytes, its middle and its end
+	assume(cut <= dataLen+6 || cut >= len(body)-1)
+	kind := nondetChoice("kind", 3)
+	trailer := make(http.Header)
+	if nondetBool("httpTrailerStatus") {
+		trailer[grpcHeaderStatus] = []string{"0"}
+	}
+	fr := &faultReader{data: body, cut: cut, kind: kind}
+	// through the public API: the client's own wiring of "where do the
+	// trailers come from" is part of what is checked
+	resp := &http.Response{StatusCode: 200, Status: "200 OK", ProtoMajor: 2, Header: http.Header{"Content-Type": {"application/grpc-web+proto"}}, Trailer: trailer, Body: fr}
+	client := NewClient[[]byte, []byte](&cannedTransport{resp: resp}, stackURL, stackClientOptions(2)...)
+	in := []byte{1}
+	stream, serr := client.CallServerStream(context.Background(), NewRequest(&in))
+	check(serr == nil, "starting the stream succeeds")
+	if serr != nil {
+		return
+	}
+	var got [][]byte
+	calls := 0
+	for stream.Receive() {
+		got = append(got, append([]byte{}, *stream.Msg()...))
+		calls++
+		if calls > len(msgs)+2 {
+			check(false, "the receive loop terminates")
+			return
+		}
+	}
+	check(isPrefixOf(got, msgs), "messages delivered before the end are a prefix of those sent")
+	err := stream.Err()
+	_ = frameEnds
+	if err == nil {
+		check(cut == len(body), "a gRPC-Web stream completes successfully only if the whole trailer frame arrived")
+		check(len(got) == len(msgs), "a successful gRPC-Web stream delivered every message")
+	} else {
+		check(codedNonZero(err), "a failed stream reports a coded non-OK error")
+	}
 }
